@@ -771,7 +771,7 @@ fn big_diagram_routes(st: &mut Stats, k: usize) {
 pub fn run(ctx: &Ctx) -> (Stats, Spec) {
     let mut st = Stats::new();
     for k in ctx.tier.pick(vec![13usize, 14], vec![12, 13, 14, 15, 16]) {
-        big_diagram_routes(&mut st, k);
+        super::common::engine_block(&mut st, "C02", "big-diagram", |s| big_diagram_routes(s, k));
     }
     let (seqs, slen) = ctx.tier.pick((400u64, 40usize), (20_000u64, 60usize));
     let parts = super::common::with_stderr_gagged(|| util::par_jobs(16, |job| api_soup_job(ctx, job, seqs, slen)));
